@@ -8,6 +8,12 @@ holds on every implementation output.  See DESIGN.md section 2.4."""
 import argparse
 import json
 import os
+import sys as _sys
+if os.environ.get("PYTHONHASHSEED") is None:
+    # the workers fork from this process and import /repo there: a fixed hash seed makes every run (and every replay)
+    # see the same set/dict iteration orders.  (The C20 purity runs start their own interpreters with other seeds.)
+    os.environ["PYTHONHASHSEED"] = "0"
+    os.execv(_sys.executable, [_sys.executable] + _sys.argv)
 import re
 import subprocess
 import sys
@@ -36,6 +42,7 @@ def sh(cmd, timeout=3000, cwd=None):
 def ensure_build():
     """make (no-op when nothing changed), extraction, OCaml driver.  Returns (ok, log)."""
     log = []
+    sh(f"{sys.executable} {os.path.join(HERE, 'gen_coqproject.py')}")      # the file list follows the tree
     mk = os.path.join(COQ, "Makefile")
     cp = os.path.join(COQ, "_CoqProject")
     if not os.path.exists(mk) or os.path.getmtime(cp) > os.path.getmtime(mk):
@@ -82,21 +89,44 @@ def _file_status(pid):
     axioms = {}
     discharged = []
     if rc == 0:
-        # Print Assumptions output follows each theorem in file order
-        blocks = re.split(r"(?=Closed under the global context|Axioms:)", out)
-        verdicts = [b for b in blocks if b.startswith(("Closed under", "Axioms:"))]
-        for i, n in enumerate(names):
-            v = verdicts[i] if i < len(verdicts) else "missing Print Assumptions"
+        # assumptions BY NAME: a generated file requires the compiled module and prints a marker before the
+        # `Print Assumptions` of every theorem (and every Example) of the file, so nothing depends on the position
+        # or presence of the `Print Assumptions` lines written in the props file itself
+        examples = re.findall(r"^Example\s+([A-Za-z0-9_']+)", text, re.M)
+        os.makedirs(os.path.join(VERIF, ".work"), exist_ok=True)
+        pa = os.path.join(VERIF, ".work", f"PA_{pid}_{os.getpid()}.v")
+        with open(pa, "w") as f:
+            f.write(f"From PS Require Import {pid}.\n")
+            for n in names + examples:
+                f.write(f'Goal True. idtac "@@PA {n}". exact I. Qed.\nPrint Assumptions {n}.\n')
+        rc2, out2 = sh(f"timeout 600 coqc -Q model PS -Q spec PS -Q proofs PS -Q props PS "
+                       f"-w -notation-overridden,-deprecated {pa}", cwd=COQ)
+        for ext in (".v", ".vo", ".vok", ".vos", ".glob"):
+            try:
+                os.remove(pa[:-2] + ext)
+            except OSError:
+                pass
+        try:
+            os.remove(os.path.join(os.path.dirname(pa), "." + os.path.basename(pa)[:-2] + ".aux"))
+        except OSError:
+            pass
+        segs = {}
+        for seg in out2.split("@@PA ")[1:]:
+            nm, _, rest = seg.partition("\n")
+            segs[nm.strip()] = rest.strip()
+        for n in names + examples:
+            v = segs.get(n, "no Print Assumptions output" if rc2 == 0 else "assumption file failed: " + out2[-300:])
             if v.startswith("Closed under"):
                 axioms[n] = []
-                discharged.append(n)
+                if n in names:
+                    discharged.append(n)
             elif v.startswith("Axioms:"):
                 ax = re.findall(r"^([A-Za-z0-9_.']+)\s*:", v[len("Axioms:"):], re.M)
                 axioms[n] = ax
-                if all(a in propdefs.ALLOWED_AXIOMS for a in ax):
+                if n in names and all(a in propdefs.ALLOWED_AXIOMS for a in ax):
                     discharged.append(n)
             else:
-                axioms[n] = [v]
+                axioms[n] = [v[:200]]
     return names, discharged, axioms, out[-2000:]
 
 
@@ -159,6 +189,13 @@ def main():
 
     if a.replay:
         rp = json.load(open(a.replay))
+        if not isinstance(rp.get("case"), (dict, list)) or not rp.get("component"):
+            # a replay that names a theorem / the build instead of an input: what is re-checked is exactly that
+            for ln in ([f"VIOLATION property={pid} replay={a.replay} no-failing-input-found"] if broken_theorems else []):
+                print(ln)
+            print(f"{pid} replay: theorems {len(discharged)}/{len(names)} closed; no input in this replay file "
+                  f"(it names: {rp.get('theorems_not_checking') or rp.get('reason') or rp.get('kind')}); exit {1 if broken_theorems else 0}")
+            return 1 if broken_theorems else 0
         res = propdefs.run_property(pid, a.tier, seed, replay=rp)
     else:
         escalate = bool(broken_theorems)
@@ -228,7 +265,16 @@ def main():
             "typing.cast(T,e) -> e, n-ary and/or nested to the right, attrs/enum class forms) and the PyLite semantics "
             "coq/pylite/PyLite.v (tree-valued objects: no aliasing, sets of ints as duplicate-free lists)"]
     if a.tier == "thorough" and not a.replay:
-        cov["coqchk"] = propdefs.coqchk(pid)
+        ck_ok, ck_out = propdefs.coqchk(pid)
+        cov["coqchk"] = ck_out
+        cov["coqchk_ok"] = ck_ok
+        if not ck_ok and rc == 0:
+            # the independent checker does not accept the compiled development (or reports an axiom / an unchecked
+            # fixpoint / assumed positivity): the theorems are not shown to hold
+            path = write_replay(pid, seed, 0, {"property": pid, "kind": "theorem",
+                                               "theorems_not_checking": [f"coqchk -o PS.{pid}"], "coqc_log": ck_out[-1500:]})
+            out_lines.append(f"VIOLATION property={pid} replay={path} no-failing-input-found")
+            nv, rc = 1, 1
     ev = {
         "property_id": pid, "tier": a.tier, "seed": seed, "level": "proof", "coverage": cov,
         "assumptions": prop.get("assumptions") or _assumptions(pid), "wall_s": round(wall, 2), "violations": nv,
